@@ -132,7 +132,7 @@ def parse_dot(path):
             line = line.rstrip('\n')
             m = _edge_re.match(line)
             if m:
-                edges.append((m.group(1), m.group(2), m.group(3)))
+                edges.append((m.group(1), m.group(2), m.group(3).replace('\\"', '"')))
                 continue
             m = _node_re.match(line)
             if m:
